@@ -271,6 +271,17 @@ def RectObj.setWidthR (r : RectObj) (w : Rat) : RectObj := { r with w := w, cach
 def RectObj.setCenterR (r : RectObj) (ctr : CR.Geom.Pt) : RectObj := { r with ctr := ctr, cache := none }
 def RectObj.setOrientationR (r : RectObj) (c s : Rat) : RectObj := { r with c := c, s := s, cache := none }
 
+/-! In-place edits.  `Rectangle.center` (getter) hands out the stored array itself (shape.py `return self._center`), so
+  `c = rect.center; c[0] = x` - and the first half of `rect.center += d` - change the parameter the object shows WITHOUT any
+  setter running: the vertex cache is kept (`writeCenter`).  The caller then tells the object by assigning that same array object
+  back (`rect.center = c`, the second half of `+=`): the setter receives a value equal to the one already stored
+  (`reassignCenterR`), and must still drop the cache. -/
+def RectObj.writeCenter (r : RectObj) (ctr : CR.Geom.Pt) : RectObj := { r with ctr := ctr }
+def RectObj.reassignCenterR (r : RectObj) : RectObj := r.setCenterR r.ctr
+/-- A centre setter that returns early when the assigned value equals the stored one (seeded change C08_13): after an in-place
+    write the comparison is between the array and itself, so the cache survives. -/
+def RectObj.setCenterSkipEqual (r : RectObj) (ctr : CR.Geom.Pt) : RectObj := if ctr = r.ctr then r else r.setCenterR ctr
+
 /-- A `Polygon` object: the vertices shown (they also give the bounding box) and the ring of the shapely polygon. -/
 structure PolyObj where
   vs : List CR.Geom.Pt
